@@ -1211,7 +1211,18 @@ func runC11(cfg Config, r *Result) {
 	if runtime.GOARCH != "amd64" {
 		r.Note("GOARCH=%s: the model writes Go's amd64 float->int conversion; on other architectures out-of-range conversions differ", runtime.GOARCH)
 	}
+	if in, ok := replayInput(cfg); ok {
+		if src, ok := in["program"].(string); ok && in["op"] == nil {
+			// a violation of one of the evaluator-model streams: re-run that program only
+			if sem := startSem(r); sem != nil {
+				c11SeqCase(sem, r, src)
+				sem.Close()
+			}
+			return
+		}
+	}
 	defer c11InPlaceStrings(cfg, r)
+	defer c11StringSequences(cfg, r)
 	if cfg.Replay != "" {
 		c11Replay(cfg.Replay, model, r)
 		if r.Evaluations > 0 || len(r.Violations) > 0 {
